@@ -458,7 +458,14 @@ class PrincipalList(C16Surface):
     theorem = "C16_principals_complete / C16_principals_object_order / C16_principal_fields_table"
 
     def impl(self, x):
-        return core.impl_call(lambda: plain(mk_statement(x["stmt"]).get_principal_list()))
+        def run():
+            st = mk_statement(x["stmt"])
+            first = plain(st.get_principal_list())
+            st.non_whitelisted_principals([])          # other queries on the SAME statement in between
+            st.get_principal_list()
+            again = plain(st.get_principal_list())
+            return again if again == first else {"unstable-on-the-same-statement": [first, again]}
+        return core.impl_call(run)
 
     def model(self, rn, x):
         return core.model_res(rn.call(1603, [x["stmt"]]))
@@ -469,7 +476,14 @@ class NonWhitelisted(C16Surface):
     theorem = "C16_whitelist"
 
     def impl(self, x):
-        return core.impl_call(lambda: mk_statement(x["stmt"]).non_whitelisted_principals(list(x["wl"])))
+        def run():
+            st, wl = mk_statement(x["stmt"]), list(x["wl"])
+            first = st.non_whitelisted_principals(wl)
+            again = st.non_whitelisted_principals(wl)      # the SAME whitelist object and statement again
+            if wl != list(x["wl"]):
+                return {"whitelist-argument-modified": wl}
+            return again if again == first else {"unstable-on-the-same-objects": [first, again]}
+        return core.impl_call(run)
 
     def model(self, rn, x):
         return core.model_res(rn.call(1604, [x["stmt"], x["wl"]]))
@@ -518,7 +532,14 @@ class DocNonWhitelisted(C16Surface):
     level = "doc"
 
     def impl(self, x):
-        return core.impl_call(lambda: as_set_list(mk_document(x["doc"]).non_whitelisted_allowed_principals(list(x["wl"]))))
+        def run():
+            doc, wl = mk_document(x["doc"]), list(x["wl"])
+            first = as_set_list(doc.non_whitelisted_allowed_principals(wl))
+            again = as_set_list(mk_document(x["doc"]).non_whitelisted_allowed_principals(wl))   # same whitelist object, second document
+            if wl != list(x["wl"]):
+                return {"whitelist-argument-modified": wl}
+            return again if again == first else {"unstable-with-the-same-whitelist-object": [first, again]}
+        return core.impl_call(run)
 
     def model(self, rn, x):
         return core.model_res(rn.call(1612, [x["doc"], x["wl"]]))
